@@ -353,6 +353,11 @@ fn parse_command(
 			group.output_filename = Some(
 				output_filename.clone());
 		}
+		else if parsed.opt_present("o")
+		{
+			report.error("missing argument for `--output`");
+			return Err(());
+		}
 
 		group.printout |= parsed.opt_present("p");
 
@@ -408,6 +413,11 @@ fn parse_command(
 					Ok(t) => t,
 				}
 			};
+		}
+		else if parsed.opt_present("t")
+		{
+			report.error("missing argument for `--iters`");
+			return Err(());
 		}
 
 
